@@ -9,8 +9,8 @@ CONSTANTS SlotDur = 3
  MaxJump = 2
  BVariants = {1, 2}
  AttOffs = {0, 1, 2}
- ProMenu = {0, 1, 2, 3}
- SyncMenu = {0, 1, 2}
+ ProMenu = {1, 2, 3}
+ SyncMenu = {0, 2}
  Starts = {0, 1, 6}
 INVARIANTS AtMostOnce OnlyAssigned NotEarly TickOrder TickNotEarly Complete TruthOK TickFresh
 CHECK_DEADLOCK FALSE
